@@ -58,6 +58,28 @@ static void values_len(long L)
     }
 }
 
+/* isolated large lengths for every hash / MAC (one-shot and two-chunk streaming) */
+static void big_len(long it)
+{
+    static const size_t BIGL[] = { 4095, 4096, 4097, 8191, 8192, 8193, 16383, 16384, 16385, 65535, 65536, 65537, 131071, 131072, 131073, 1048575, 1048576, 1048577, 4194303, 4194305 };
+    size_t len = BIGL[it], cut; unsigned char *m, key[64], o1[64], o2[64];
+    if (len > 1100000 && !thorough) return;
+    m = malloc(len + 16); vf_pat(m, len, PAT_R1, 65); vf_pat(key, 64, PAT_R2, 66); cut = len / 2 + 1;
+    crypto_hash_sha256(o1, m, len); ref_sha256(o2, m, len); CMP("sha256/len=%zu/%s", o1, o2, 32, len, "large");
+    crypto_hash_sha512(o1, m, len); ref_sha512(o2, m, len); CMP("sha512/len=%zu/%s", o1, o2, 64, len, "large");
+    crypto_auth(o1, m, len, key); ref_hmac_sha512256(o2, key, 32, m, len); CMP("crypto_auth/len=%zu/%s", o1, o2, 32, len, "large");
+    crypto_auth_hmacsha256(o1, m, len, key); ref_hmac_sha256(o2, key, 32, m, len); CMP("hmacsha256/len=%zu/%s", o1, o2, 32, len, "large");
+    crypto_generichash(o1, 64, m, len, key, 64); ref_blake2b(o2, 64, m, len, key, 64, NULL, NULL); CMP("generichash64-keyed/len=%zu/%s", o1, o2, 64, len, "large");
+    crypto_shorthash(o1, m, len, key); ref_siphash24(o2, m, len, key); CMP("shorthash/len=%zu/%s", o1, o2, 8, len, "large");
+    crypto_onetimeauth(o1, m, len, key); ref_poly1305(o2, m, len, key); CMP("onetimeauth/len=%zu/%s", o1, o2, 16, len, "large");
+    { crypto_onetimeauth_state ps; crypto_generichash_state gs; crypto_hash_sha512_state hs; crypto_hash_sha256_state h2;
+      crypto_onetimeauth_init(&ps, key); crypto_onetimeauth_update(&ps, m, cut); crypto_onetimeauth_update(&ps, m + cut, len - cut); crypto_onetimeauth_final(&ps, o1); CMP("onetimeauth-multipart/len=%zu/%s", o1, o2, 16, len, "large");
+      crypto_generichash_init(&gs, key, 64, 64); crypto_generichash_update(&gs, m, cut); crypto_generichash_update(&gs, m + cut, len - cut); crypto_generichash_final(&gs, o1, 64); ref_blake2b(o2, 64, m, len, key, 64, NULL, NULL); CMP("generichash-multipart/len=%zu/%s", o1, o2, 64, len, "large");
+      crypto_hash_sha512_init(&hs); crypto_hash_sha512_update(&hs, m, cut); crypto_hash_sha512_update(&hs, m + cut, len - cut); crypto_hash_sha512_final(&hs, o1); ref_sha512(o2, m, len); CMP("sha512-multipart/len=%zu/%s", o1, o2, 64, len, "large");
+      crypto_hash_sha256_init(&h2); crypto_hash_sha256_update(&h2, m, cut); crypto_hash_sha256_update(&h2, m + cut, len - cut); crypto_hash_sha256_final(&h2, o1); ref_sha256(o2, m, len); CMP("sha256-multipart/len=%zu/%s", o1, o2, 32, len, "large"); }
+    free(m);
+}
+
 /* HMAC with every key length 0..200 through the multipart API */
 static void hmac_keylen(long KL)
 {
@@ -369,6 +391,7 @@ int main(void)
     vf_pat(GKEY, sizeof GKEY, PAT_R2, 100);
     build_apis();
     vf_parallel(16, 0, (long) MAXLEN + 1, values_len, fin);
+    vf_parallel(16, 0, 20, big_len, fin);
     vf_parallel(16, 0, 201, hmac_keylen, fin);
     vf_parallel(16, 1, 65, blake_outlen, fin);
     vf_parallel(16, 0, 23, kdf_all, fin);
